@@ -429,7 +429,9 @@ func main() {
 	if r.Quick() {
 		phases = []phase{{"all programs, no deviation", all, vx.Bounds{}, 0, 0}, {"core programs, one deviation (any kind) among the first 2500 choice points", core, vx.Bounds{1, 1, 1, 1, 0}, 1, 2500}}
 	} else {
-		phases = []phase{{"all programs, one deviation (any kind)", all, vx.Bounds{1, 1, 1, 1, 0}, 1, 0}, {"core programs, two deviations (any kinds) among the first 600 choice points", core, vx.Bounds{2, 2, 2, 1, 0}, 2, 600}}
+		// the deeper phase first (that is where the thorough tier found its defects); the soft budget
+		// then cuts the broad phase, which covers all programs as far as the budget goes
+		phases = []phase{{"core programs, two deviations (any kinds) among the first 600 choice points", core, vx.Bounds{2, 2, 2, 1, 0}, 2, 600}, {"all programs, one deviation (any kind)", all, vx.Bounds{1, 1, 1, 1, 0}, 1, 0}}
 	}
 	r.SetRule("two real tube muxers (rewritten at check time for the deterministic scheduler + virtual clock) over an in-memory link; one tube opened by the client; per side a main thread with a sequence of <=3 operations from {Write 1 byte, Write 40000 bytes, Read, Close, WaitForClose, Stop, open a further reliable / unreliable tube, pause 2 s, kill the muxer's transport connection (its writes fail from then on)} (<=6 for the kill programs) and an optional second thread issuing a concurrent Close or Stop; loss patterns {none, first FIN lost, reply to the first FIN lost, everything from the client lost once the server has sent its FIN (lost last ACK), everything lost after 400 ms, dead network from the start}; the environment stops both muxers once all program threads returned, at the latest at virtual time 140 s. Every program is executed under every schedule within the phase's deviation bounds (iterative bounding; executions run to completion). Oracles: no deadlock, nothing still running at 10 virtual minutes, no panic in any thread (e.g. send on closed channel), every Close returns, Stop returns within 10 virtual seconds; WaitForClose returns within 120 virtual seconds of closure having become inevitable (both ends asked for it on a link that recovers, or the local muxer was told to stop), no thread alive 20 virtual seconds after both muxers stopped, after local close Write fails and Read ends with end-of-stream. states = distinct schedules; transitions = choice points met.")
 	var execs, points int64
